@@ -280,6 +280,9 @@ __sexy_add(dt_sexy_t sx, struct dt_dtdur_s dur)
 	case DT_DURNANO:
 		dv /= NANOS_PER_SEC;
 		break;
+	case DT_DURWK:
+		dv = (dt_ssexy_t)dur.d.dv * GREG_DAYS_P_WEEK * SECS_PER_DAY;
+		break;
 	case DT_DURD:
 	case DT_DURBD:
 		dv = (dt_ssexy_t)dur.d.dv * SECS_PER_DAY;
@@ -1585,6 +1588,19 @@ dt_dtadd(struct dt_dt_s d, struct dt_dtdur_s dur)
 #endif	/* WITH_LEAP_SECONDS */
 
 	if (d.typ == DT_SEXY) {
+		switch (dur.durtyp) {
+		case DT_DURMO:
+		case DT_DURQU:
+		case DT_DURYR:
+		case DT_DURBD:
+			/* no months, years or weekdays in a count of seconds,
+			 * go through ymd */
+			d = dt_dtconv((dt_dttyp_t)DT_YMD, d);
+			d = dt_dtadd(d, dur);
+			return dt_dtconv((dt_dttyp_t)DT_SEXY, dt_fixup(d));
+		default:
+			break;
+		}
 		d.sexy = __sexy_add(d.sexy, dur);
 		return d;
 	}
